@@ -35,6 +35,9 @@ Definition exp_omega_checked (finite1 : bool) (z_re z_im : R) : option R :=
 (* ExponentialOfHEMModel.__init__: its own guard first (the HEM closed form is finite and real beyond the pole), then the generic one *)
 Definition hem_exp_omega_checked (eta1 : R) (finite1 : bool) (z_re z_im : R) : option R :=
   if hem_exp_raises eta1 then None else exp_omega_checked finite1 z_re z_im.
+(* ExponentialOfCGMYModel.__init__: its own guard (m < 1, or m = 1 with y <= 0) first, then the generic one *)
+Definition cgmy_exp_omega_checked (m y : R) (finite1 : bool) (z_re z_im : R) : option R :=
+  if cgmy_exp_raises m y then None else exp_omega_checked finite1 z_re z_im.
 (* where 1 lies in the strip, per family (right-tail rate > 1): HEM eta1, CGMY M, VG lambda_+ *)
 Definition strip_contains_one (tail_rate : R) : bool := Rltb 1 tail_rate.
 
